@@ -290,6 +290,39 @@ Proof.
   - injection H as <- _ _. fin1 W Hg wi w 1 (@nil entity); [nz|constructor].
 Qed.
 
+(* 24 / 25: remove / exchange of a derived Bundle struct (a key tag follows the handle) *)
+Lemma step_op24 st wi args st' rest obs :
+  total_inj (e_u st) -> est_inv st -> est_fits st -> est_wf st ->
+  exec_op st 24 (wi :: args) = (st', rest, obs) -> est_fits st' -> post st st'.
+Proof.
+  intros T I F W H F'. red_op H. destruct (get_w st wi) as [w|] eqn:Hg; [|dead_world H W].
+  pose proof (est_inv_get _ _ _ I Hg) as Iw. pose proof (est_fits_get _ _ _ F Hg) as Fw.
+  destruct (dec_href st args) as [h r0].
+  match type of H with context [let '(_, _) := ?X in _] => destruct X as [tag r1] end.
+  destruct (dec_types r1) as [ts rest0].
+  destruct (w_remove (e_u st) w h (tag :: ts) ts) as [[w' r]|c] eqn:Es.
+  - assert (I' : WInv (e_u st) w') by (eapply remove_keeps; try eassumption; reflexivity).
+    destruct r; injection H as <- _ _; (fin1 W Hg wi w' 0 (@nil entity); [intros _ _; split; [exact I'|constructor]|nz]).
+  - injection H as <- _ _. fin1 W Hg wi w 1 (@nil entity); [nz|constructor].
+Qed.
+
+Lemma step_op25 st wi args st' rest obs :
+  total_inj (e_u st) -> est_inv st -> est_fits st -> est_wf st ->
+  exec_op st 25 (wi :: args) = (st', rest, obs) -> est_fits st' -> post st st'.
+Proof.
+  intros T I F W H F'. red_op H. destruct (get_w st wi) as [w|] eqn:Hg; [|dead_world H W].
+  pose proof (est_inv_get _ _ _ I Hg) as Iw. pose proof (est_fits_get _ _ _ F Hg) as Fw.
+  destruct (dec_href st args) as [h r0].
+  match type of H with context [let '(_, _) := ?X in _] => destruct X as [tag r1] end.
+  destruct (dec_types r1) as [ts r2].
+  pose proof (dec_bundle_keyc (e_u st) r2) as Hk. destruct (dec_bundle (e_u st) r2) as [b rest0]. cbn [fst] in Hk.
+  destruct (w_exchange (e_u st) w h (tag :: ts) ts b) as [[w' r]|c] eqn:Es.
+  - assert (I' : WInv (e_u st) w') by (eapply exchange_keeps; try eassumption; reflexivity).
+    destruct r as [[tk d]| |]; injection H as <- _ _;
+      (fin1 W Hg wi w' 0 (@nil entity); [intros _ _; split; [exact I'|constructor]|nz]).
+  - injection H as <- _ _. fin1 W Hg wi w 1 (@nil entity); [nz|constructor].
+Qed.
+
 Lemma step_op6 st wi args st' rest obs :
   total_inj (e_u st) -> est_inv st -> est_fits st -> est_wf st ->
   exec_op st 6 (wi :: args) = (st', rest, obs) -> est_fits st' -> post st st'.
@@ -1029,14 +1062,14 @@ Qed.
 (* an opcode that means nothing: the script stops (live world) or the step is skipped (dead world) *)
 Lemma exec_op_other st opc wi args :
   ~ (50 <= opc <= 86) -> ~ (100 <= opc <= 116) -> opc <> 22 -> opc <> 23 -> opc <> 20 -> opc <> 21 -> opc <> 30 ->
-  opc <> 90 -> ~ (1 <= opc <= 19) ->
+  opc <> 90 -> opc <> 24 -> opc <> 25 -> ~ (1 <= opc <= 19) ->
   exec_op st opc (wi :: args) =
   match get_w st wi with
   | None => (add_handles st (repeatN NOHANDLE 0), args, [8])
   | Some _ => (st, [], [])
   end.
 Proof.
-  intros H1 H2 H3 H4 H5 H6 H7 H8 H9. unfold exec_op.
+  intros H1 H2 H3 H4 H5 H6 H7 H8 H10 H11 H9. unfold exec_op.
   replace (N.leb 50 opc && N.leb opc 86) with false
     by (destruct (N.leb_spec 50 opc), (N.leb_spec opc 86); cbn [andb]; try reflexivity; lia).
   replace (N.leb 100 opc && N.leb opc 116) with false
@@ -1065,6 +1098,8 @@ Proof.
   all: (destruct (N.eq_dec opc 21) as [->|C4]; [eapply step_op21; eassumption|]).
   all: (destruct (N.eq_dec opc 30) as [->|C5]; [eapply step_op30; eassumption|]).
   all: (destruct (N.eq_dec opc 90) as [->|C6]; [eapply step_op90; eassumption|]).
+  all: (destruct (N.eq_dec opc 24) as [->|C7]; [eapply step_op24; eassumption|]).
+  all: (destruct (N.eq_dec opc 25) as [->|C8]; [eapply step_op25; eassumption|]).
   all: (destruct (N.le_gt_cases 1 opc) as [D1|D1]; [destruct (N.le_gt_cases opc 19) as [D2|D2]|]).
   all: try (rewrite exec_op_other in H by lia; destruct (get_w st wi); injection H as <- _ _;
             [apply post_refl; assumption|fin0 W; hg_tac]).
@@ -1120,7 +1155,7 @@ Lemma caps_post_eq st st' opc0 wi args0 :
   caps_post st st' opc0 (wi :: args0) =
   let args := if N.eqb opc0 18 || N.eqb opc0 19 then tl args0 else args0 in
   let opc := if N.eqb opc0 18 then 14 else if N.eqb opc0 19 then 15 else opc0 in
-  if (N.leb 1 opc && N.leb opc 17) || N.eqb opc 53 || N.eqb opc 54 || N.eqb opc 64 then
+  if (N.leb 1 opc && N.leb opc 17) || N.eqb opc 24 || N.eqb opc 25 || N.eqb opc 53 || N.eqb opc 54 || N.eqb opc 64 then
     let target := if N.eqb opc 53 || N.eqb opc 54 || N.eqb opc 64 then match args with x :: _ => x | [] => 0 end else wi in
     if N.eqb opc 8 then caps_upd st st' opc wi args (caps_upd st st' opc wi args st' 0) 1
     else caps_upd st st' opc wi args st' target
